@@ -1161,43 +1161,51 @@ func c01TagsGivenNode(c *Ctx, R string) {
 }
 
 var c01Mutants = []Mutant{
+	// --- the repository's own test suite stays green under these (verified in a scratch copy) ---
+	{Name: "docker-config-skipped-when-empty", File: "content/graph.go",
+		Old: "\t\treturn append([]ocispec.Descriptor{manifest.Config}, manifest.Layers...), nil",
+		New: "\t\tif manifest.Config.Size == 0 {\n\t\t\treturn manifest.Layers, nil\n\t\t}\n\t\treturn append([]ocispec.Descriptor{manifest.Config}, manifest.Layers...), nil", Expect: "C01.R1.successor-field-coverage|~/content.Successors|docker-manifest|config"},
+	{Name: "manifest-subject-needs-size", File: "content/graph.go",
+		Old: "\t\tif manifest.Subject != nil {\n\t\t\tnodes = append(nodes, *manifest.Subject)\n\t\t}\n\t\tnodes = append(nodes, manifest.Config)",
+		New: "\t\tif manifest.Subject != nil && manifest.Subject.Size > 0 {\n\t\t\tnodes = append(nodes, *manifest.Subject)\n\t\t}\n\t\tnodes = append(nodes, manifest.Config)", Expect: "C01.R1.successor-field-coverage|~/content.Successors|image-manifest|subject"},
+	{Name: "tracker-key-without-size", File: "internal/descriptor/descriptor.go",
+		Old: "\t\tDigest:    desc.Digest,\n\t\tSize:      desc.Size,\n\t}\n}\n\n// IsForeignLayer",
+		New: "\t\tDigest:    desc.Digest,\n\t}\n}\n\n// IsForeignLayer", Expect: "C01.R3.tracker-key|~/internal/descriptor.FromOCI|Size"},
+	{Name: "skipped-root-tag-needs-user-hook", File: "copy.go",
+		Old: "\t\t\tif err := onCopySkipped(ctx, desc); err != nil {\n\t\t\t\treturn err\n\t\t\t}\n\t\t}\n\t\tif err := dst.Tag(ctx, root, dstRef); err != nil {\n\t\t\treturn newCopyError(\"Tag\", CopyErrorOriginDestination, err)\n\t\t}\n\t\treturn nil",
+		New: "\t\t\tif err := onCopySkipped(ctx, desc); err != nil {\n\t\t\t\treturn err\n\t\t\t}\n\t\t\tif err := dst.Tag(ctx, root, dstRef); err != nil {\n\t\t\t\treturn newCopyError(\"Tag\", CopyErrorOriginDestination, err)\n\t\t\t}\n\t\t}\n\t\treturn nil", Expect: "C01.R4.root-tagging|~.prepareCopy$OnCopySkipped|tags-root"},
+	{Name: "onskipped-manifests-only", File: "copy.go",
+		Old: "\t\t\tif opts.OnCopySkipped != nil {\n\t\t\t\tif err := opts.OnCopySkipped(ctx, desc); err != nil {",
+		New: "\t\t\tif opts.OnCopySkipped != nil && descriptor.IsManifest(desc) {\n\t\t\t\tif err := opts.OnCopySkipped(ctx, desc); err != nil {", Expect: "C01.R4.root-tagging|~.copyGraph$traverse|existing-node-notifies-OnCopySkipped"},
+	{Name: "postcopy-tags-manifest-roots-only", File: "copy.go",
+		Old: "\t\t\tif content.Equal(desc, root) {\n\t\t\t\t// for root node, tag it after copying it",
+		New: "\t\t\tif content.Equal(desc, root) && descriptor.IsManifest(desc) {\n\t\t\t\t// for root node, tag it after copying it", Expect: "C01.R4.root-tagging|~.prepareCopy$PostCopy|tags-root"},
+	{Name: "filter-drops-empty-digest", File: "copy.go",
+		Old: "\t\tif !descriptor.IsForeignLayer(desc) {\n\t\t\tif i != j {",
+		New: "\t\tif !descriptor.IsForeignLayer(desc) && desc.Digest != \"\" {\n\t\t\tif i != j {", Expect: "C01.R2.foreign-layer-filter|~.removeForeignLayers|keeps-non-foreign"},
+	{Name: "extendedcopy-tags-srcref", File: "extendedcopy.go",
+		Old: "if err := dst.Tag(ctx, node, dstRef); err != nil {",
+		New: "if err := dst.Tag(ctx, node, srcRef); err != nil {", Expect: "C01.R4.root-tagging|~.ExtendedCopy"},
+	// --- below: see the report for which of these the repository's tests also catch ---
 	{Name: "successors-drop-manifest-subject", File: "content/graph.go",
 		Old: "\t\tvar nodes []ocispec.Descriptor\n\t\tif manifest.Subject != nil {\n\t\t\tnodes = append(nodes, *manifest.Subject)\n\t\t}\n\t\tnodes = append(nodes, manifest.Config)",
 		New: "\t\tvar nodes []ocispec.Descriptor\n\t\tnodes = append(nodes, manifest.Config)", Expect: "C01.R1.successor-field-coverage|~/content.Successors|image-manifest|subject"},
 	{Name: "successors-drop-index-subject", File: "content/graph.go",
 		Old: "\t\tif index.Subject != nil {\n\t\t\tnodes = append(nodes, *index.Subject)\n\t\t}\n", New: "", Expect: "C01.R1.successor-field-coverage|~/content.Successors|image-index|subject"},
-	{Name: "successors-docker-config-dropped", File: "content/graph.go",
-		Old: "return append([]ocispec.Descriptor{manifest.Config}, manifest.Layers...), nil", New: "return manifest.Layers, nil", Expect: "C01.R1.successor-field-coverage|~/content.Successors|docker-manifest|config"},
-	{Name: "successors-artifact-kind-removed", File: "content/graph.go",
-		Old: "\tcase spec.MediaTypeArtifactManifest:\n", New: "\tcase spec.MediaTypeArtifactManifest + \"+x\":\n", Expect: "C01.R1.successor-field-coverage|~/content.Successors|artifact-manifest"},
 	{Name: "manifestutil-subject-skips-index", File: "internal/manifestutil/parser.go",
 		Old: "case ocispec.MediaTypeImageManifest, ocispec.MediaTypeImageIndex, spec.MediaTypeArtifactManifest:", New: "case ocispec.MediaTypeImageManifest, spec.MediaTypeArtifactManifest:", Expect: "C01.R1.successor-field-coverage|~/internal/manifestutil.Subject|image-index"},
 	{Name: "foreign-set-widened", File: "internal/descriptor/descriptor.go",
 		Old: "\t\tdocker.MediaTypeForeignLayer:\n", New: "\t\tdocker.MediaTypeForeignLayer,\n\t\tocispec.MediaTypeImageLayerGzip:\n", Expect: "C01.R2.foreign-layer-filter|~/internal/descriptor.IsForeignLayer|media-type-set"},
 	{Name: "foreign-by-urls", File: "internal/descriptor/descriptor.go",
 		Old: "\t\tdocker.MediaTypeForeignLayer:\n\t\treturn true\n\tdefault:\n\t\treturn false\n", New: "\t\tdocker.MediaTypeForeignLayer:\n\t\treturn true\n\tdefault:\n\t\treturn len(desc.URLs) > 0\n", Expect: "C01.R2.foreign-layer-filter|~/internal/descriptor.IsForeignLayer|true-only-for-listed-types"},
-	{Name: "filter-drops-non-foreign", File: "copy.go",
-		Old: "\t\tif !descriptor.IsForeignLayer(desc) {\n\t\t\tif i != j {", New: "\t\tif !descriptor.IsForeignLayer(desc) && !descriptor.IsManifest(desc) {\n\t\t\tif i != j {", Expect: "C01.R2.foreign-layer-filter"},
-	{Name: "filter-removed", File: "copy.go",
-		Old: "\t\tsuccessors = removeForeignLayers(successors)\n", New: "", Expect: "C01.R2.foreign-layer-filter"},
 	{Name: "successors-truncated", File: "copy.go",
 		Old: "\t\tsuccessors = removeForeignLayers(successors)\n", New: "\t\tsuccessors = removeForeignLayers(successors)\n\t\tif len(successors) > 64 {\n\t\t\tsuccessors = successors[:64]\n\t\t}\n", Expect: "C01.R2.successor-set-integrity"},
-	{Name: "tracker-key-digest-only", File: "internal/descriptor/descriptor.go",
-		Old: "func FromOCI(desc ocispec.Descriptor) Descriptor {\n\treturn Descriptor{\n\t\tMediaType: desc.MediaType,\n", New: "func FromOCI(desc ocispec.Descriptor) Descriptor {\n\treturn Descriptor{\n", Expect: "C01.R3.tracker-key|~/internal/descriptor.FromOCI|MediaType"},
-	{Name: "skipped-root-not-tagged", File: "copy.go",
-		Old: "\t\tif err := dst.Tag(ctx, root, dstRef); err != nil {\n\t\t\treturn newCopyError(\"Tag\", CopyErrorOriginDestination, err)\n\t\t}\n\t\treturn nil\n\t}\n\n\treturn nil\n}",
-		New: "\t\treturn nil\n\t}\n\n\treturn nil\n}", Expect: "C01.R4.root-tagging|~.prepareCopy$OnCopySkipped|tags-root"},
 	{Name: "hooks-not-installed-for-empty-ref", File: "copy.go",
 		Old: "\tif refPusher, ok := dst.(registry.ReferencePusher); ok {\n\t\t// optimize performance for ReferencePusher targets\n", New: "\tif dstRef == \"\" {\n\t\treturn nil\n\t}\n\tif refPusher, ok := dst.(registry.ReferencePusher); ok {\n\t\t// optimize performance for ReferencePusher targets\n", Expect: "C01.R4.root-tagging|~.prepareCopy|installs-"},
 	{Name: "copy-returns-unmapped-root", File: "copy.go",
 		Old: "\t\troot, err = opts.MapRoot(ctx, proxy, root)\n\t\tif err != nil {", New: "\t\tmapped, err := opts.MapRoot(ctx, proxy, root)\n\t\t_ = mapped\n\t\tif err != nil {", Expect: "C01.R4.root-tagging|~.Copy|one-root-prepared-copied-returned"},
 	{Name: "copy-tags-srcref", File: "copy.go",
 		Old: "\tif err := prepareCopy(ctx, dst, dstRef, proxy, root, &opts); err != nil {", New: "\tif err := prepareCopy(ctx, dst, srcRef, proxy, root, &opts); err != nil {", Expect: "C01.R4.root-tagging|~.Copy|reference-default"},
-	{Name: "postcopy-tag-only-when-user-hook", File: "copy.go",
-		Old: "\t\t\tif content.Equal(desc, root) {\n\t\t\t\t// for root node, tag it after copying it", New: "\t\t\tif content.Equal(desc, root) && postCopy != nil {\n\t\t\t\t// for root node, tag it after copying it", Expect: "C01.R4.root-tagging|~.prepareCopy$PostCopy|tags-root"},
-	{Name: "onskipped-not-called", File: "copy.go",
-		Old: "\t\tif exists {\n\t\t\tif opts.OnCopySkipped != nil {\n\t\t\t\tif err := opts.OnCopySkipped(ctx, desc); err != nil {\n\t\t\t\t\treturn err\n\t\t\t\t}\n\t\t\t}\n\t\t\treturn nil\n\t\t}",
-		New: "\t\tif exists {\n\t\t\treturn nil\n\t\t}", Expect: "C01.R4.root-tagging|~.copyGraph$traverse|existing-node-notifies-OnCopySkipped"},
 	{Name: "extendedcopy-tag-dropped-on-empty-dstref", File: "extendedcopy.go",
 		Old: "\tif dstRef == \"\" {\n\t\tdstRef = srcRef\n\t}\n\n\tnode, err := src.Resolve(ctx, srcRef)", New: "\tnode, err := src.Resolve(ctx, srcRef)", Expect: "C01.R4.root-tagging|~.ExtendedCopy"},
 }
